@@ -86,7 +86,7 @@ func WriteRegistry(dir, pkg string) error {
 	for _, c := range consts {
 		fmt.Fprintf(&b, "\t\t%q: %s,\n", c, c)
 	}
-	b.WriteString("\t},\n}\n\nfunc TestVerif(t *testing.T) { drv.Main(t, verifRegistry) }\n")
+	b.WriteString("\t},\n}\n\nfunc TestVerif(t *testing.T) { drv.Main(t, verifRegistry) }\n\nfunc FuzzVerif(f *testing.F) { drv.FuzzMain(f, verifRegistry) }\n")
 	return os.WriteFile(filepath.Join(dir, "zz_verif_test.go"), b.Bytes(), 0o644)
 }
 
